@@ -34,6 +34,7 @@ type runConfig struct {
 	kfOpen       map[string]bool
 	kfConfirm    string
 	tierN        int
+	property     string
 	stopOnEvent  bool
 }
 
@@ -91,13 +92,37 @@ type harnessRun struct {
 	limitHit                                  string
 
 	initPkgs []*ssa.Package
+	funcSeen, externSeen sync.Map
 
-	pureMu sync.Mutex
-	pure   map[*ssa.Function]bool
+	pureMu  sync.Mutex
+	pure    map[*ssa.Function]bool
+	pdom    map[*ssa.Function][]*ssa.BasicBlock
+	noMerge map[ssa.Instruction]bool
 }
 
+func (r *harnessRun) mergeFailed(ins ssa.Instruction) {
+	r.pureMu.Lock()
+	if r.noMerge == nil {
+		r.noMerge = map[ssa.Instruction]bool{}
+	}
+	r.noMerge[ins] = true
+	r.pureMu.Unlock()
+}
+func (r *harnessRun) mergeBanned(ins ssa.Instruction) bool {
+	r.pureMu.Lock()
+	defer r.pureMu.Unlock()
+	return r.noMerge[ins]
+}
 func (r *harnessRun) noteUnknownFeas() { r.mu.Lock(); r.unknownFeas++; r.mu.Unlock() }
-func (r *harnessRun) noteExtern(n string) { r.mu.Lock(); r.externs[n]++; r.mu.Unlock() }
+func (r *harnessRun) noteExtern(n string) {
+	if _, ok := r.externSeen.Load(n); ok {
+		return
+	}
+	r.externSeen.Store(n, true)
+	r.mu.Lock()
+	r.externs[n]++
+	r.mu.Unlock()
+}
 func (r *harnessRun) noteStub(n string)   { r.mu.Lock(); r.stubs[n]++; r.mu.Unlock() }
 func (r *harnessRun) noteStale()          { r.mu.Lock(); r.staleObjs++; r.mu.Unlock() }
 func (r *harnessRun) noteCross()          { r.mu.Lock(); r.crossChecks++; r.mu.Unlock() }
@@ -109,14 +134,16 @@ func (r *harnessRun) noteSummary(n int) {
 	r.mu.Unlock()
 }
 func (r *harnessRun) noteFunc(fn *ssa.Function) {
-	r.mu.Lock()
-	if _, ok := r.funcs[fn.String()]; !ok {
-		n := 0
-		for _, b := range fn.Blocks {
-			n += len(b.Instrs)
-		}
-		r.funcs[fn.String()] = n
+	if _, ok := r.funcSeen.Load(fn); ok {
+		return
 	}
+	r.funcSeen.Store(fn, true)
+	r.mu.Lock()
+	n := 0
+	for _, b := range fn.Blocks {
+		n += len(b.Instrs)
+	}
+	r.funcs[fn.String()] = n
 	r.mu.Unlock()
 }
 func (r *harnessRun) noteObligation(label, res string) {
@@ -217,6 +244,7 @@ func (e *Exec) resetPath(it workItem) {
 	e.ts = nil
 	e.analyzers = nil
 	e.merge = nil
+	e.in = newInterner()
 	e.depth = 0
 	e.mapSeq = 0
 	for _, id := range e.atomIDs {
